@@ -212,6 +212,17 @@ class Normaliser(ast.NodeTransformer):
         """N18: bool(x) in a boolean position is x"""
         while isinstance(e, ast.Call) and isinstance(e.func, ast.Name) and e.func.id == 'bool' and len(e.args) == 1 and not e.keywords:
             e = e.args[0]
+        # N36: `len(tuple(x for x in it if c))` in a boolean position is `any(c for x in it)`
+        if isinstance(e, ast.Call) and isinstance(e.func, ast.Name) and e.func.id == 'len' and len(e.args) == 1 and not e.keywords:
+            c = e.args[0]
+            if isinstance(c, ast.Call) and isinstance(c.func, ast.Name) and c.func.id in ('tuple', 'list') and len(c.args) == 1 and not c.keywords:
+                c = c.args[0]
+            if isinstance(c, (ast.GeneratorExp, ast.ListComp)) and len(c.generators) == 1 and is_pure(c.elt):
+                g = c.generators[0]
+                cond = ast.Constant(value=True) if not g.ifs else g.ifs[0] if len(g.ifs) == 1 else ast.BoolOp(op=ast.And(), values=list(g.ifs))
+                gen = ast.comprehension(target=g.target, iter=g.iter, ifs=[], is_async=0)
+                return loc(ast.Call(func=loc(ast.Name(id='any', ctx=ast.Load()), e), args=[loc(ast.GeneratorExp(elt=loc(cond, e), generators=[gen]), e)],
+                                    keywords=[]), e)
         return e
 
     def visit_Return(self, node):
@@ -275,6 +286,19 @@ class Normaliser(ast.NodeTransformer):
                         inner = inner[:-1]
                     out.append(loc(ast.If(test=negate(test), body=inner, orelse=[]), s))
                     return out
+                if exit_stmt is not None and not _defines(rest):
+                    # N13b: a body that ends in the bare exit of the block (`...; return` at function level, `...; continue` in a
+                    # loop) only skips the rest: `if c: A; <leave>` followed by R  is  `if c: A else: R` (to the end of the block)
+                    def bare(b):
+                        return len(b) > 1 and type(b[-1]) is type(exit_stmt) and getattr(b[-1], 'value', None) is None
+                    if bare(body) and (rest or orelse) and not (orelse and terminates(orelse) and not bare(orelse)):
+                        s2 = loc(ast.If(test=test, body=body[:-1], orelse=list(orelse) + list(rest)), s)
+                        out.extend(self._ifs([s2], exit_stmt))
+                        return self._tail(out, exit_stmt)
+                    if orelse and bare(orelse) and not terminates(body) and rest:
+                        s2 = loc(ast.If(test=test, body=list(body) + list(rest), orelse=orelse[:-1]), s)
+                        out.extend(self._ifs([s2], exit_stmt))
+                        return self._tail(out, exit_stmt)
                 # an else after a body that leaves the block is the rest of the block
                 if orelse and terminates(body):
                     rest = orelse + rest
@@ -287,12 +311,42 @@ class Normaliser(ast.NodeTransformer):
                         test, body, rest = negate(test), rest, body
                 if orelse and neg_score(negate(copy.deepcopy(test))) < neg_score(test):
                     test, body, orelse = negate(test), orelse, body     # the orientation with fewer negations / weak comparisons
+                # N35: `if a: if b: S` without else branches is `if a and b: S`
+                while not orelse and len(body) == 1 and isinstance(body[0], ast.If) and not body[0].orelse:
+                    test = loc(ast.BoolOp(op=ast.And(), values=[test, body[0].test]), s)
+                    body = body[0].body
+                if isinstance(test, ast.BoolOp) and isinstance(test.op, ast.And):
+                    vals = []
+                    for v in test.values:
+                        vals.extend(v.values if isinstance(v, ast.BoolOp) and isinstance(v.op, ast.And) else [v])
+                    test.values = vals
                 s = loc(ast.If(test=test, body=body, orelse=orelse), s)
                 out.append(s)
                 out.extend(self._ifs(rest, exit_stmt))
-                return out
+                return self._tail(out, exit_stmt)
             out.append(s)
             i += 1
+        return out
+
+    def _tail(self, out, exit_stmt):
+        """The branches of an `if` that ends a block whose end means <leave> end there too: the same shapes apply inside."""
+        if exit_stmt is None or not out or not isinstance(out[-1], ast.If):
+            return out
+        last = out[-1]
+        for field in ('body', 'orelse'):
+            b = getattr(last, field)
+            if not b:
+                continue
+            b = self._ifs(list(b), exit_stmt)
+            while len(b) > 1 and type(b[-1]) is type(exit_stmt) and getattr(b[-1], 'value', None) is None:
+                b = b[:-1]
+            setattr(last, field, b)
+        def only_exit(b):
+            return len(b) == 1 and type(b[0]) is type(exit_stmt) and getattr(b[0], 'value', None) is None
+        if only_exit(last.orelse):
+            last.orelse = []
+        if only_exit(last.body) and last.orelse:
+            last.test, last.body, last.orelse = negate(last.test), last.orelse, []
         return out
 
     def _retail(self, s, exit_stmt):
@@ -355,18 +409,40 @@ def _defines(stmts):
     return any(isinstance(n, (ast.FunctionDef, ast.ClassDef, ast.Lambda)) for s in stmts for n in ast.walk(s))
 
 
-def normalise(tree):
+def normalise_light(tree):
+    """Only the local rewrites (expression forms, comparison and if shapes): locals, helpers and statement order stay as written."""
+    from . import canon2
+    if not os.environ.get('SA_NO_CANON2'):
+        tree = canon2.Expr().visit(tree)
+    tree = Normaliser().visit(tree)
+    ast.fix_missing_locations(tree)
+    return tree
+
+
+def normalise(tree, light=False):
     """In-place normal form of a module / statement tree."""
+    if light:
+        return normalise_light(tree)
+    from . import canon2
+    second = not os.environ.get('SA_NO_CANON2')
+    if second:
+        tree = canon2.pre(tree)
     tree = Normaliser().visit(tree)
     ast.fix_missing_locations(tree)
     if not os.environ.get('SA_NO_COPYPROP'):
         propagate_all(tree)
+        if second:
+            tree = canon2.pre(tree)
         tree = Normaliser().visit(tree)          # substitution can create shapes the first pass removes (`not (a < b)`)
         ast.fix_missing_locations(tree)
+        if second:
+            propagate_all(tree)                  # tail duplication / loop rewrites expose further single-use locals
+            tree = Normaliser().visit(tree)
+            ast.fix_missing_locations(tree)
     return tree
 
 
-def normal_text(src):
+def normal_text(src, light=False):
     """Normal form of a source fragment (one or more statements, or an expression); fragments that do not parse on their
     own (a dangling block header) are completed with `pass` first. Returns None if the fragment cannot be parsed."""
     for cand in (src, src + ' pass', src + '\n    pass'):
@@ -381,10 +457,10 @@ def normal_text(src):
                                  type_comment=None, lineno=0, col_offset=0)
             mod = ast.Module(body=[fn], type_ignores=[])
             ast.fix_missing_locations(mod)
-            mod = normalise(mod)
+            mod = normalise(mod, light)
             out = '\n'.join(ast.unparse(x) for x in mod.body[0].body)
         else:
-            tree = normalise(tree)
+            tree = normalise(tree, light)
             out = ast.unparse(tree)
         if cand is not src and out.rstrip().endswith('pass'):
             out = out.rstrip()[:-4]
@@ -507,9 +583,12 @@ def propagate_copies(fn):
                 if not (isinstance(st, ast.Assign) and len(st.targets) == 1 and isinstance(st.targets[0], ast.Name)):
                     continue
                 x = st.targets[0].id
-                if cnt.get(x) != 1 or x in params or x in nested_reads or x in declared or x == '_':
+                if cnt.get(x) != 1 or x in params or x in declared or x == '_':
                     continue
                 e = st.value
+                closure = x in nested_reads
+                if closure and not (blk is fn.body and _closure_constant_ok(fn, x, e, cnt, params)):
+                    continue
                 if not is_pure(e):
                     # a fresh container that is only ever read (never mutated, never aliased into a store) is a value too
                     if not (is_pure(e, containers=True) and _only_read(fn, x)):
@@ -529,10 +608,10 @@ def propagate_copies(fn):
                     continue
                 later = blk[i + 1:]
                 uses = [n for s in later for n in ast.walk(s) if isinstance(n, ast.Name) and n.id == x and isinstance(n.ctx, ast.Load)]
-                all_uses = [n for n in _own_nodes(fn) if isinstance(n, ast.Name) and n.id == x and isinstance(n.ctx, ast.Load)]
+                all_uses = [n for n in (ast.walk(fn) if closure else _own_nodes(fn)) if isinstance(n, ast.Name) and n.id == x and isinstance(n.ctx, ast.Load)]
                 if not uses or len(uses) != len(all_uses):
                     continue
-                if _reads_written_state(e, later, uses, owner):
+                if _reads_written_state(e, later, uses, fn if closure else owner, whole=closure):
                     continue
                 for s in later:
                     _Subst(x, e).visit(s)
@@ -545,6 +624,54 @@ def propagate_copies(fn):
                 break
         if not done:
             break
+
+
+def _closure_constant_ok(fn, x, e, cnt, params):
+    """N10c: a local of the enclosing function that nested functions only read is still its definition when the definition is a
+    value (`is_pure`), its operands are never re-bound, nested scopes do not bind the name themselves, and - if it reads object
+    state - the nested functions that use it are only ever *called* from this function (they do not outlive the state they
+    would read later)."""
+    if not (is_pure(e) or (is_pure(e, containers=True) and _only_read(fn, x))):
+        return False
+    for n in ast.walk(e):
+        if isinstance(n, ast.Name) and n.id != x and cnt.get(n.id, 0) != 0 and n.id not in params:
+            return False
+        if isinstance(n, ast.Name) and n.id in params and cnt.get(n.id, 0) != 0:
+            return False
+    users = []
+    for n in _own_nodes(fn):
+        if isinstance(n, SCOPES):
+            inner = [y for y in ast.walk(n) if y is not n]
+            if any(isinstance(y, ast.Name) and y.id == x for y in inner):
+                if isinstance(n, ast.ClassDef):
+                    return False
+                for y in inner:
+                    if isinstance(y, ast.Name) and y.id == x and not isinstance(y.ctx, ast.Load):
+                        return False
+                    if isinstance(y, ast.arg) and y.arg == x:
+                        return False
+                    if isinstance(y, (ast.Global, ast.Nonlocal)) and x in y.names:
+                        return False
+                args = n.args
+                if any(a.arg == x for a in args.posonlyargs + args.args + args.kwonlyargs):
+                    return False
+                users.append(n)
+    reads_state = any(isinstance(n, (ast.Attribute, ast.Subscript)) and not (isinstance(n, ast.Attribute) and isinstance(n.value, ast.Constant))
+                      for n in ast.walk(e))
+    if reads_state:
+        parents = {}
+        for p in ast.walk(fn):
+            for c in ast.iter_child_nodes(p):
+                parents[id(c)] = p
+        for u in users:
+            if isinstance(u, ast.Lambda) or u.decorator_list:
+                return False
+            for n in ast.walk(fn):
+                if isinstance(n, ast.Name) and n.id == u.name and isinstance(n.ctx, ast.Load):
+                    p = parents.get(id(n))
+                    if not (isinstance(p, ast.Call) and p.func is n):
+                        return False
+    return True
 
 
 def _only_read(fn, name):
@@ -629,12 +756,18 @@ def _defined_before(fn, name, blk, idx):
     return False
 
 
-def _reads_written_state(e, later, uses, owner):
-    """Does the expression read an attribute / element that a statement between the definition and the last use may write?"""
+def _reads_written_state(e, later, uses, owner, whole=False):
+    """Does the expression read an attribute / element that a statement between the definition and the last use may write?
+    A name handed over as a whole object (`len(xs)`, `getattr(obj, n)`) reads everything reachable through it."""
     reads = set()
+    bases = set()
     for n in ast.walk(e):
         if isinstance(n, (ast.Attribute, ast.Subscript)):
             reads.add(ast.unparse(n))
+            bases.add(id(n.value))
+    for n in ast.walk(e):
+        if isinstance(n, ast.Name) and id(n) not in bases and not (isinstance(e, ast.Name)):
+            reads.add(n.id)
     if not reads:
         return False
 
@@ -648,6 +781,8 @@ def _reads_written_state(e, later, uses, owner):
         return False
     last = max((getattr(u, 'lineno', 0) for u in uses), default=0)
     span = list(later)
+    if whole:
+        last = 10 ** 9
     if isinstance(owner, (ast.For, ast.While)):
         span = span + list(owner.body)          # a write later in the loop body reaches the next iteration's use
         last = 10 ** 9
@@ -827,7 +962,10 @@ def forward_substitute(fn):
                     for root in scope_nodes:
                         for n in ast.walk(root):
                             if isinstance(n, (ast.ListComp, ast.SetComp, ast.DictComp, ast.GeneratorExp, ast.Lambda)):
-                                if any(isinstance(x, ast.Name) and x.id in names and isinstance(x.ctx, ast.Load) for x in ast.walk(n)):
+                                # (the outermost iterable of a comprehension is evaluated once, where the comprehension stands)
+                                eager = set(id(x) for x in ast.walk(n.generators[0].iter)) if not isinstance(n, ast.Lambda) else set()
+                                if any(isinstance(x, ast.Name) and x.id in names and isinstance(x.ctx, ast.Load) and id(x) not in eager
+                                       for x in ast.walk(n)):
                                     multi = True
                     if multi:
                         continue
